@@ -15,6 +15,7 @@ pub mod c12;
 pub mod c13;
 pub mod c14;
 pub mod c17;
+pub mod c18;
 
 use crate::runner::{replay_prop, run_prop, Tier};
 
@@ -24,6 +25,7 @@ macro_rules! dispatch {
             "C01" => $f(&c01::C01, $($arg),*),
             "C02" => $f(&c02::C02, $($arg),*),
             "C17" => $f(&c17::C17, $($arg),*),
+            "C18" => $f(&c18::C18, $($arg),*),
             "C03" => $f(&c03::C03, $($arg),*),
             "C04" => $f(&c04::C04, $($arg),*),
             "C05" => $f(&c05::C05, $($arg),*),
